@@ -200,6 +200,35 @@ fn check_path(p: &str, rotate: bool) -> Result<usize, (String, String)> {
         .map(|q| norm(q))
         .collect();
     listed.sort();
+    // a rotated file that an operator has moved elsewhere, leaving a symbolic link under the old
+    // name, still is an existing file of the family
+    let mut listed_with_link: Option<Vec<PathBuf>> = None;
+    if rotate {
+        if let Some(victim) = listed.first().cloned() {
+            let archive = base.join("archive-elsewhere");
+            std::fs::create_dir_all(&archive).ok();
+            let moved = archive.join(victim.file_name().unwrap());
+            if std::fs::rename(&victim, &moved).is_ok() && std::os::unix::fs::symlink(&moved, &victim).is_ok() {
+                let mut l2: Vec<PathBuf> = handle
+                    .existing_log_files(&LogfileSelector::default().with_r_current())
+                    .map_err(|e| ("listing!=directory".to_string(), format!("{p:?}: {e}")))?
+                    .iter()
+                    .map(|q| norm(q))
+                    .collect();
+                l2.sort();
+                listed_with_link = Some(l2);
+                // (back to a plain file for the checks below)
+                std::fs::remove_file(&victim).ok();
+                std::fs::rename(&moved, &victim).ok();
+                std::fs::remove_dir(&archive).ok();
+            }
+        }
+    }
+    if let Some(l2) = &listed_with_link {
+        if *l2 != listed {
+            return Err(("listing!=directory".into(), format!("{p:?}: with the oldest rotated file replaced by a symbolic link to its new place, existing_log_files = {l2:?}, before {listed:?}")));
+        }
+    }
     handle.shutdown();
     drop(logger);
     drop(handle);
@@ -494,6 +523,34 @@ fn check_builder_order(naming: NamingK) -> Result<usize, (String, String)> {
             ));
         }
         seen.push(scan.names());
+    }
+    // rotate(..) followed by o_rotate(None) (a default overridden from the command line): no
+    // rotation - a logger built from a path writes exactly that path
+    {
+        let env = Env::new("c16b");
+        env.enter();
+        let path = env.dir.join("plain.trc");
+        let fs = FileSpec::try_from(path.clone()).map_err(|e| ("path!=spec".to_string(), e.to_string()))?;
+        let (logger, handle) = Logger::with(LogSpecification::trace())
+            .format(lg::payload_format)
+            .error_channel(ErrorChannel::File(env.err.clone()))
+            .log_to_file(fs)
+            .rotate(Criterion::Size(LIMIT), naming.naming(), Cleanup::Never)
+            .o_rotate(None)
+            .build()
+            .map_err(|e| ("build-error".to_string(), e.to_string()))?;
+        for i in 0..3 {
+            lg::log_info(&*logger, &lg::payload(0, i, 19));
+        }
+        let listed: Vec<std::path::PathBuf> = handle.existing_log_files(&LogfileSelector::default()).unwrap_or_default();
+        handle.shutdown();
+        drop(logger);
+        drop(handle);
+        env.leave();
+        let names = family::list_names(&env.dir);
+        if names != vec!["plain.trc".to_string()] || listed.iter().filter_map(|p| p.file_name()).map(|f| f.to_string_lossy().to_string()).collect::<Vec<_>>() != vec!["plain.trc".to_string()] {
+            return Err(("builder-order".into(), format!("rotate(..) followed by o_rotate(None): the logger built from the path plain.trc created {names:?} and lists {listed:?}")));
+        }
     }
     if seen[0] != seen[1] {
         return Err(("builder-order".into(), format!("names depend on the order of the builder calls: log_to_file().rotate() gives {:?}, rotate().log_to_file() gives {:?}", seen[0], seen[1])));
